@@ -40,6 +40,12 @@ def run(ctx):
         rebuild(ctx, f, fam, builder, cfg)
         old_list(ctx, f, fam, builder, emap, cfg)
         reuse_shape(ctx, f, fam, cfg)
+        # a changed rule set is not mistaken for "unchanged": the snapshot the next load is compared with is updated on every path
+        # that reports a change, and the enforced list is replaced on every such path (rules of C10, run here for this property)
+        from . import rules_C10
+        bodies = {p: b for p, b in f.bodies.items() if p.startswith("core::%s::rule_manager::" % fam) and b.kind == "Fn"}
+        rules_C10.raw_snapshot(ctx, f, fam, bodies, cfg)
+        rules_C10.enforced_updated(ctx, f, fam, bodies, cfg)
     fresh_read(ctx, f, cfg)
 
 
